@@ -89,7 +89,7 @@ def spdx(
         output is not None
         and output.name != "-"
         and not any(
-            pattern.match(output.name) for pattern in _IGNORE_SPDX_PATTERNS
+            pattern.fullmatch(output.name) for pattern in _IGNORE_SPDX_PATTERNS
         )
     ):
         # pylint: disable=line-too-long
